@@ -38,7 +38,7 @@ def drive_cloud(args):
     ns = [1, 2, 10, 1000] if not thorough else [1, 2, 10, 1000, 5000]
     for engine in (None, "Halton", "Sobol", "LHC"):
         for n in (ns if engine is None else [8, 64]):
-            for sd in (seed, seed + 1):
+            for sd in (0, seed, seed + 1):      # "all seeds" includes 0
                 key = (repr(Pi), n, sd, engine)
                 for rep in range(3):
                     # third repetition: the same seed as a numpy integer (same abstract seed, other representation)
@@ -49,6 +49,23 @@ def drive_cloud(args):
                                            pts=np.rint(X * S).astype(int).tolist(), S=S, tol=TOL, key=key, meta=w))
                     except Exception as ex:
                         bad.append(("C13.no-error", dict(exc=type(ex).__name__, **w), None, repr(ex)[:200]))
+    if d == 2 and st.get("A"):
+        # the same polygon as the gamut of a registered system: samples drawn through the estimator (default engine)
+        # must be uniform over it as well, also when there are more sources than receptors
+        n = 20000
+        regs = sorted([r["tri"] for r in st["regions"]])
+        A = [list(r) for r in st["A"]]
+        sysd = dict(A=A, D=1, lb=[0] * len(A[0]), ub=list(st["ub"]), kk="none", Kn=np.eye(len(A)).astype(int).tolist(), DK=1, bk="none", bl=[0] * len(A))
+        for sd in (seed + 7, 0):
+            w = dict(op="sample_in_gamut", d=d, engine="None", n=n, uniform=True, nsrc=len(A[0]))
+            try:
+                est = dsys.make_estimator(dreye, sysd)
+                X = np.asarray(est.sample_in_gamut(n, seed=sd), float)
+                idx = tri_index(X, regs)
+                counts = [int(np.sum(idx == k)) for k in range(len(regs))]
+                events.append(dict(ev="counts", P=Pi, n=n, regions=regs, counts=counts, meta=w))
+            except Exception as ex:
+                bad.append(("C13.no-error", dict(exc=type(ex).__name__, **w), None, repr(ex)[:200]))
     if d == 2:
         n = 20000
         regs = sorted([r["tri"] for r in st["regions"]])
@@ -76,7 +93,7 @@ def drive_estimator(seed):
         nz = [list(c) for c in corners if any(c)]
         d = len(A)
         for n in (1, 10, 300):
-            for sd in (seed, seed + 3):
+            for sd in (0, seed, seed + 3):
                 for engine in (None, "Halton"):
                     key = ("est", repr(A), n, sd, str(engine), None)
                     for rep in range(2):
